@@ -143,3 +143,31 @@ package stanza
 //@     invariant[C13,C14] rangeindex < len(start.Attr) && v.XMLName == start.Name
 //@     invariant[C13,C14] forall k int :: 0 <= k && k <= rangeindex && ownType(start.Attr[k], start.Name) && (forall j int :: k < j && j <= rangeindex ==> !ownType(start.Attr[j], start.Name)) ==> string(v.Type) == start.Attr[k].Value
 //@     invariant[C13,C14] (forall k int :: 0 <= k && k <= rangeindex ==> !ownType(start.Attr[k], start.Name)) ==> string(v.Type) == ""
+
+// The decoder side of the stanza types (the encoders are the hand-written
+// StartElement/Wrap/TokenReader functions specified above): the attributes are
+// read from the names those encoders write.
+//@ wire[C13] IQ.ID attr id
+//@ wire[C13] IQ.To attr to
+//@ wire[C13] IQ.From attr from
+//@ wire[C13] IQ.Lang attr http://www.w3.org/XML/1998/namespace lang
+//@ wire[C13] IQ.Type attr type
+//@ wire[C13] Message.ID attr id
+//@ wire[C13] Message.To attr to
+//@ wire[C13] Message.From attr from
+//@ wire[C13] Message.Lang attr http://www.w3.org/XML/1998/namespace lang
+//@ wire[C13] Message.Type attr type
+//@ wire[C13] Presence.ID attr id
+//@ wire[C13] Presence.To attr to
+//@ wire[C13] Presence.From attr from
+//@ wire[C13] Presence.Lang attr http://www.w3.org/XML/1998/namespace lang
+//@ wire[C13] Presence.Type attr type
+// ... and the stanza error decoder: any child as condition, type and by as
+// attributes, the texts from <text/> in the stanza error namespace with
+// xml:lang and character data
+//@ wire[C13] func:(*Error).UnmarshalXML#1.Condition any
+//@ wire[C13] func:(*Error).UnmarshalXML#1.Type attr type
+//@ wire[C13] func:(*Error).UnmarshalXML#1.By attr by
+//@ wire[C13] func:(*Error).UnmarshalXML#1.Text element urn:ietf:params:xml:ns:xmpp-stanzas text
+//@ wire[C13] func:(*Error).UnmarshalXML#3.Lang attr http://www.w3.org/XML/1998/namespace lang
+//@ wire[C13] func:(*Error).UnmarshalXML#3.Data chardata
